@@ -27,7 +27,7 @@ COMPS = ["ns", "ew", "vt"]
 @st.composite
 def window_recipe(draw, n):
     r = dict(seeds=[draw(gen.seeds32) for _ in range(3)], kind=draw(st.sampled_from(["noise", "noise", "sines"])),
-             scale_exp=draw(st.integers(-6, 6)), events=[])
+             scale_exp=draw(st.one_of(st.integers(-6, 6), st.sampled_from([-10, -9, -10]))), events=[])
     for _ in range(draw(st.sampled_from([0, 0, 1, 1, 2]))):
         r["events"].append(dict(pos=draw(gen.floats(0, 0.95)), length=draw(gen.floats(0.02, 0.4)),
                                 gain=draw(st.sampled_from([0.02, 0.1, 0.3, 3.0, 10.0, 50.0])),
